@@ -1,6 +1,7 @@
 """C13: listener dispatch order / exactly-once / ignore locality, on the sequential simnet."""
 import refcodec as rc
 import refproto as rp
+import types
 import simnet
 from refserver import RefServer
 
@@ -359,6 +360,84 @@ def run(ctx):
                           % (nburst, ', an ordinary listener queues a chat packet per keep-alive' if queue_out else '', k // 3 + 1,
                              blog[k] if k < len(blog) else None, want[k] if k < len(want) else None, len(blog), len(want)),
                           {'burst': nburst, 'queue_out': queue_out}, key={'kind': 'burst', 'n': nburst, 'queue_out': queue_out})
+    # ---- registration from two threads at once: a second thread registers a listener in the same group while the first is in
+    # the middle of `register_packet_listener` (forced at every line of it, harness/interleave.py); afterwards both listeners
+    # must run exactly once for a matching packet
+    import interleave
+    import minecraft.networking.connection as Cmod
+    conn_file = Cmod.__file__.rstrip('c')
+    KAc, KAs = cb.play.KeepAlivePacket, sb.play.KeepAlivePacket
+    for early, outgoing in ((False, False), (True, False), (False, True), (True, True)):
+        def make(early=early, outgoing=outgoing):
+            conn = C.Connection('h', 1, username='u', allowed_versions={V})
+            ran = []
+            T_ = KAs if outgoing else KAc
+            fa = lambda: conn.register_packet_listener(lambda p: ran.append('a'), T_, early=early, outgoing=outgoing)
+            fb = lambda: conn.register_packet_listener(lambda p: ran.append('b'), T_, early=early, outgoing=outgoing)
+
+            def judge():
+                pk = T_(context=conn.context) if True else None
+                pk.keep_alive_id = 5
+                try:
+                    if outgoing:
+                        conn.socket = types.SimpleNamespace(send=lambda d: len(d))
+                        conn._write_packet(pk)
+                    else:
+                        conn.reactor = types.SimpleNamespace(react=lambda p: None)
+                        conn._react(pk)
+                except Exception as e:
+                    ran.append('raised %r' % (e,))
+                return sorted(ran)
+            return fa, fb, judge
+        npts = 0
+        for k, ran in interleave.every_point(make, lambda fn: fn.rstrip('c') == conn_file):
+            npts += 1
+            ctx.case(('concurrent-registration', early, outgoing, k))
+            if ran != ['a', 'b']:
+                ctx.violation('two threads register a listener each (early=%s, outgoing=%s), the second in the middle of the first '
+                              '(interruption point #%d of register_packet_listener): listeners that ran for one matching packet: %r'
+                              % (early, outgoing, k, ran), {'early': early, 'outgoing': outgoing, 'point': k},
+                              key={'kind': 'concurrent-registration', 'early': early, 'outgoing': outgoing})
+                break
+        ctx.count('concurrent-registration.points', npts)
+    # ---- dispatch is re-entrant: a listener that itself writes a packet (forced) while it is being called; the nested packet is
+    # an outgoing packet in its own right and passes through EVERY outgoing listener, the calling one included
+    for variant in range(4):
+        wire, log = [], []
+        conn = C.Connection('h', 1, username='u', allowed_versions={V})
+        conn.socket = types.SimpleNamespace(send=lambda d: wire.append(bytes(d)) or len(d))
+        conn.connected = True
+
+        def censor(p):
+            log.append(('censor', p.message))
+            if p.message == 'outer' and variant % 2 == 0:
+                q = sb.play.ChatPacket(message='secret')
+                conn.write_packet(q, force=True)
+            if p.message == 'secret':
+                raise IgnorePacket
+        conn.register_packet_listener(censor, sb.play.ChatPacket, outgoing=True, early=True)
+
+        def late(p):
+            log.append(('late', p.message))
+            if p.message == 'outer' and variant % 2 == 1:
+                conn.write_packet(sb.play.ChatPacket(message='inner'), force=True)
+        conn.register_packet_listener(late, sb.play.ChatPacket, outgoing=True)
+        try:
+            conn.write_packet(sb.play.ChatPacket(message='outer'), force=True)
+        except Exception as e:
+            log.append(('raised', repr(e)))
+        ctx.case(('nested-write', variant))
+        sent = b''.join(wire)
+        if variant % 2 == 0:
+            want = [('censor', 'outer'), ('censor', 'secret'), ('late', 'outer')]
+            bad = log != want or b'secret' in sent or b'outer' not in sent
+        else:
+            want = [('censor', 'outer'), ('late', 'outer'), ('censor', 'inner'), ('late', 'inner')]
+            bad = log != want or b'inner' not in sent or b'outer' not in sent
+        if bad:
+            ctx.violation('an outgoing listener writes a packet (forced) while it is being called: listener calls %r, expected %r; '
+                          'on the wire: outer=%s nested=%s' % (log, want, b'outer' in sent, (b'secret' in sent) or (b'inner' in sent)),
+                          {'variant': variant}, key={'kind': 'nested-write', 'variant': variant % 2})
     # ---- an early listener that ignores Set Compression suppresses the built-in reaction: compression stays
     # off, and it is still off while the early listener runs
     for state in ('login',):
